@@ -436,7 +436,76 @@ def rule_bittest(Pall):
     return r
 
 
+def rule_expiry(P):
+    """what a timer expiry does to the event's list membership, in both expiry loops"""
+    r = Rule("C02-expiry", "K6", "an expiring event leaves every pending list and becomes active with EV_TIMEOUT (or merges EV_TIMEOUT if already active)", floor=40)
+    from .C01 import _heads
+    M = Machine(P)
+    n_fn = 0
+    for f in P.fns_in("event.c"):
+        for a in f.calls("event_active_nolock_"):
+            if len(a.e[2]) < 2 or not (is_e(strip(a.e[2][1]), "int") and strip(a.e[2][1])[1] == EV["TIMEOUT"]):
+                continue
+            X = strip(a.e[2][0])
+            if not is_e(X, "var") or not list(f.calls("gettime")):
+                continue
+            heads = _heads(P, f, X[1])
+            if not heads:
+                continue
+            n_fn += 1
+            d, kind = heads[0]
+            g = list(f.calls("gettime"))[0]
+            nowv = strip(strip(g.e[2][1])[1])
+            hi = 0x50000000 if kind == "queue" else 0
+            due = {nkey(["fld", ["fld", X, "event.ev_timeout", "->"], "timeval.tv_sec", "."]): 5, nkey(["fld", ["fld", X, "event.ev_timeout", "->"], "timeval.tv_usec", "."]): 7 | hi,
+                   nkey(["fld", nowv, "timeval.tv_sec", "."]): 9, nkey(["fld", nowv, "timeval.tv_usec", "."]): 0, X[1]: 1}
+            # evaluate up to and including the activation: stop at the first element after it
+            blk = f.blocks[a.bid]
+            after = blk.elems[a.idx + 1] if a.idx + 1 < len(blk.elems) else None
+            hdrs = tuple(f.loops_of(a.bid))
+            nbad = 0
+            for fl in flag_values(False):
+                if not fl & L["TIMEOUT"]:
+                    continue
+                for events in (EV["READ"] | EV["PERSIST"], EV["READ"], EV["SIGNAL"] | EV["PERSIST"], 0, EV["PERSIST"]):
+                    if not (events & IOSIG) and fl & L["INSERTED"]:
+                        continue
+                    st = {"flags": fl, "res": EV["READ"] if fl & (L["ACTIVE"] | L["ACTIVE_LATER"]) else 0, "events": events, "count": 100, "active": 50}
+                    stop = (lambda el: el is after) if after is not None else (lambda el: False)
+                    outs = M.evaluate(f.name, st, {}, extra=due, region=((d.bid, d.idx + 1), stop, hdrs), ev_var=X)
+                    for o in outs:
+                        if o["unknown"]:
+                            r.brk("%s: %s" % (f.name, o["unknown"]))
+                            return r
+                        if "event_active_nolock_" not in o["calls"]:
+                            r.brk("%s: a due event does not reach the activation (%s)" % (f.name, o["calls"]))
+                            return r
+                        n = nint(fl)
+                        was = fl & (L["ACTIVE"] | L["ACTIVE_LATER"])
+                        if was:
+                            wf = (fl & ~(L["TIMEOUT"] | L["ACTIVE_LATER"])) | L["ACTIVE"]
+                            wr = st["res"] | EV["TIMEOUT"]
+                            wc = st["count"] - n
+                            wa = st["active"]
+                        else:
+                            wf = (fl & ~(L["TIMEOUT"] | L["INSERTED"])) | L["ACTIVE"]
+                            wr = EV["TIMEOUT"]
+                            wc = st["count"] - n * (1 + (1 if fl & L["INSERTED"] else 0)) + n
+                            wa = st["active"] + 1
+                        got = o["st"]
+                        r.inst((f.name, fl, events, o["choices"]), {"fn": f.name, "flags": hex(fl), "ev_events": hex(events), "after": hex(got["flags"]), "res": hex(got["res"]), "count": got["count"], "active": got["active"]})
+                        if (got["flags"], got["res"], got["count"], got["active"]) != (wf, wr, wc, wa) and nbad < 3:
+                            nbad += 1
+                            r.bad("K6:%s:expiry-transition" % f.name, a.where(), f.name,
+                                  "expiring event with flags %#x, ev_events %#x: becomes flags %#x res %#x count %d active %d; documented flags %#x res %#x count %d active %d "
+                                  "(a timed-out event is removed from every pending list before it is activated; the persist closure re-adds it)" % (
+                                      fl, events, got["flags"], got["res"], got["count"], got["active"], wf, wr, wc, wa))
+    if n_fn < 2:
+        r.brk("expected two expiry loops (heap and common queue), found %d" % n_fn)
+    return r
+
+
 def run(ctx, config):
     P = ctx.prog(UNITS, config)
     Pall = ctx.prog(None, config)
-    return [rule_machine(P, config), rule_who(Pall), rule_pending(P), rule_bittest(Pall)]
+    return [rule_machine(P, config), rule_who(Pall), rule_pending(P), rule_bittest(Pall), rule_expiry(P)]
